@@ -45,6 +45,16 @@ CLAIMS = {
         "technique": "TLA+ spec of CPD meaning/layout + validation predicate; exhaustive TLC generation replayed on the code",
         "design_ref": "6/C05",
     },
+    "C03": {
+        "text": ("Same VE machine and instance file as C01: for every (instance, query set, evidence, virtual evidence, elimination order) TLC "
+                 "computes MAPSet, the arg-max set of the exact posterior by integer comparison (ties kept). Each case is replayed on "
+                 "VariableElimination.map_query (explicit order and every heuristic), BeliefPropagation.map_query (where the library accepts the "
+                 "graph) and BayesianNetwork.predict; accepted iff exactly the requested variables are assigned, every value is a state name of "
+                 "its variable, and the assignment is in MAPSet."),
+        "note": "Ties free; P(evidence)=0 excluded; small-scope instance file (<=5 nodes, card<=3) incl. tied (uniform/twin) and tie-free tables.",
+        "technique": "TLA+ VE machine + definitional MAPSet, TLC-enumerated cases replayed on the code",
+        "design_ref": "6/C03",
+    },
 }
 
 NOT_APPLICABLE = {}
